@@ -172,6 +172,46 @@ Theorem C11_rpc_refusals : forall kec cfg reg owner valid parsed s w a,
 Proof. exact svc_register_refusals. Qed.
 Print Assumptions C11_rpc_refusals.
 
+(* One registry object, any number of operations ([session]): the n-th check is answered from
+   the n-th pair of call results alone.  Whatever came before, it starts by reading the
+   minimum again, and its answer is yes exactly when the values read at THAT call decode and
+   minimum <= amount -- in particular a minimum that was raised, became unreadable or
+   malformed since an earlier check is what counts. *)
+Theorem C11_check_stateless : forall kec cfg reg qs n addr a_min a_stake,
+  nth_error qs n = Some (QCheck addr a_min a_stake) ->
+  exists t b,
+    nth_error (session kec cfg reg qs) n = Some (t, ACheck b) /\
+    t = fst (check kec cfg reg addr a_min a_stake) /\
+    b = snd (check kec cfg reg addr a_min a_stake) /\
+    hd_error t = Some (ECall (read_req kec reg (r_min cfg) [])) /\
+    (b = true <->
+     exists m s,
+       (exists bm bs, a_min = CBytes bm /\ a_stake = CBytes bs /\
+                      decode_uint256 bm = Some m /\ decode_uint256 bs = Some s) /\
+       m <= s).
+Proof. exact session_check_stateless. Qed.
+Print Assumptions C11_check_stateless.
+
+Theorem C11_check_history_independent : forall kec cfg reg qs qs' n addr a_min a_stake,
+  nth_error qs n = Some (QCheck addr a_min a_stake) ->
+  nth_error qs' n = Some (QCheck addr a_min a_stake) ->
+  nth_error (session kec cfg reg qs) n = nth_error (session kec cfg reg qs') n.
+Proof. exact session_check_independent. Qed.
+Print Assumptions C11_check_history_independent.
+
+(* The getters likewise: each call makes its one request and returns what that answer decodes to. *)
+Theorem C11_getters_stateless : forall kec cfg reg qs n,
+  (forall a, nth_error qs n = Some (QGetMin a) ->
+     nth_error (session kec cfg reg qs) n =
+     Some ([ECall (read_req kec reg (r_min cfg) [])],
+           ANum (match a with CErr => None | CBytes b => decode_uint256 b end))) /\
+  (forall addr a, nth_error qs n = Some (QGetStake addr a) ->
+     nth_error (session kec cfg reg qs) n =
+     Some ([ECall (read_req kec reg (r_stake cfg) [VAddress addr])],
+           ANum (match a with CErr => None | CBytes b => decode_uint256 b end))).
+Proof. exact session_getters_stateless. Qed.
+Print Assumptions C11_getters_stateless.
+
 (* The boolean checker that bin/check evaluates on the implementation's observations
    (check/Check_C11.v: [violation]) is tied to the model: every observation equal to what the
    model produces ([agrees], the correspondence test) passes it ... *)
@@ -179,10 +219,18 @@ Theorem C11_checker_accepts_model : forall c, agrees c = true -> violation c = N
 Proof. exact checker_accepts_model. Qed.
 Print Assumptions C11_checker_accepts_model.
 
-(* ... and an observation passes it only if it satisfies the property: a yes needs both
+(* ... and an observation passes it only if it satisfies the property.  A session (several
+   operations on one registry object) passes only if every step passes [violation1] on its own
+   requests and answers; *)
+Theorem C11_checker_reflects_session : forall c steps st,
+  op c = OpSession steps -> violation c = None -> In st steps -> violation1 (sub c st) = None.
+Proof. exact checker_reflects_session. Qed.
+Print Assumptions C11_checker_reflects_session.
+
+(* for a single check ([violation1] is [violation] on a single operation) a yes needs both
    values read through the wanted requests, decoded, and minimum <= amount; *)
 Theorem C11_checker_reflects_check : forall c addr a1 a2,
-  op c = OpCheck addr a1 a2 -> violation c = None -> res c = ObsBool true ->
+  op c = OpCheck addr a1 a2 -> violation1 c = None -> res c = ObsBool true ->
   exists m s,
     value_read c [a1; a2] (want_read c (spec_min (kind c)) []) = Some m /\
     value_read c [a1; a2] (want_read c (spec_stake (kind c)) [VAddress addr]) = Some s /\
@@ -193,7 +241,7 @@ Print Assumptions C11_checker_reflects_check.
 (* a stake / prepay makes at most one Send, the wanted one, and a success (result code 0)
    needs the hash returned by the Send to be waited for afterwards and status 1. *)
 Theorem C11_checker_reflects_register : forall c amt s w,
-  op c = OpRegister amt s w -> violation c = None ->
+  op c = OpRegister amt s w -> violation1 c = None ->
   (sends (trace c) = [] \/ sends (trace c) = [want_send c amt]) /\
   (res c = ObsReg 0 ->
    exists h, s = SHash h /\ w = WReceipt 1 /\ sends (trace c) = [want_send c amt] /\
@@ -201,61 +249,61 @@ Theorem C11_checker_reflects_register : forall c amt s w,
 Proof. exact checker_reflects_register. Qed.
 Print Assumptions C11_checker_reflects_register.
 
-(* ---- compositions (proofs/Compose_chain.v) ---------------------------------------------------------------
+(* ---- compositions (proofs/Compose_registry.v) ---------------------------------------------------------------
    Three values are oracles in the theorems above: the verdict of the request validator together with the
    result of big.Int.SetString (RPC glue), the result of client.Send, and -- seen from the handshake -- the
    answer of CheckProviderRegistered itself.  Each is instantiated below by the model that owns it.
-   Non-vacuity: Compose_chain.ex_rpc_amount, ex_register_through_sender, ex_provider_enrolled. *)
-From MevVerif Require model.Rules model.EvmSend model.Handshake proofs.Compose_chain.
+   Non-vacuity: Compose_registry.ex_rpc_amount, ex_register_through_sender, ex_provider_enrolled. *)
+From MevVerif Require model.Rules model.EvmSend model.Handshake proofs.Compose_registry.
 
 (* C11 o C19 (model/Rules.v: the published rule of StakeRequest / PrepayRequest) o C03 (model/Eip712.v:
-   big.Int.SetString(s, 10)).  [Compose_chain.svc_register_text] is the RPC method on the request's amount
+   big.Int.SetString(s, 10)).  [Compose_registry.svc_register_text] is the RPC method on the request's amount
    TEXT.  It is refused, with nothing sent, exactly when the text breaks the published rule (the "cannot
    parse" refusal behind the validator is unreachable); otherwise exactly one transaction is sent and its
    value is the number the text spells, positive and below 2^64. *)
 Theorem C11_rpc_amount_is_text : forall kec cfg reg owner amount s w a,
   (Rules.stake_ok amount = false ->
-     Compose_chain.svc_register_text kec cfg reg owner amount s w a = ([], SvcInvalidArgument)) /\
+     Compose_registry.svc_register_text kec cfg reg owner amount s w a = ([], SvcInvalidArgument)) /\
   (Rules.stake_ok amount = true ->
      0 < dec_value amount < 18446744073709551616 /\
-     Compose_chain.svc_register_text kec cfg reg owner amount s w a =
+     Compose_registry.svc_register_text kec cfg reg owner amount s w a =
        svc_register kec cfg reg owner true (Some (Z.of_N (dec_value amount))) s w a /\
-     sends (fst (Compose_chain.svc_register_text kec cfg reg owner amount s w a)) =
+     sends (fst (Compose_registry.svc_register_text kec cfg reg owner amount s w a)) =
        [{| tx_to := reg; tx_value := Some (Z.of_N (dec_value amount));
            tx_data := selector kec (method_sig (r_register cfg) []); tx_gas := false |}]).
-Proof. exact Compose_chain.rpc_amount_is_text. Qed.
+Proof. exact Compose_registry.rpc_amount_is_text. Qed.
 Print Assumptions C11_rpc_amount_is_text.
 
-(* C11 o C08 (model/EvmSend.v).  client.Send instantiated by the sender model ([Compose_chain.sendres_of]:
-   a hash is returned exactly when the node took the transaction; [Compose_chain.request_of]: the request
+(* C11 o C08 (model/EvmSend.v).  client.Send instantiated by the sender model ([Compose_registry.sendres_of]:
+   a hash is returned exactly when the node took the transaction; [Compose_registry.request_of]: the request
    carries no gas limit and no gas price).  A stake / prepay reports success only if its one transaction
    was accepted by the node under a nonce n of the sender -- every external call of that Send succeeded,
    gas estimate and price suggestion included, and n passed the in-flight window -- and was mined with
    status 1; the sender's counter then stands at n+1.  When Send does not get the transaction accepted the
    registry reports error class 1 and the counter is not advanced past the nonce tried. *)
 Theorem C11_register_through_sender : forall kec cfg reg amount hash_of ctr cf a w,
-  let rq := Compose_chain.request_of (send_req kec cfg reg amount) in
+  let rq := Compose_registry.request_of (send_req kec cfg reg amount) in
   let sr := EvmSend.send ctr cf rq a in
-  (snd (register kec cfg reg amount (Compose_chain.sendres_of hash_of (snd sr)) w) = Ok tt ->
+  (snd (register kec cfg reg amount (Compose_registry.sendres_of hash_of (snd sr)) w) = Ok tt ->
      exists n, snd sr = EvmSend.Accepted n /\ w = WReceipt 1 /\ fst sr = (n + 1) mod EvmSend.w64 /\
        EvmSend.allow_nonce cf n = true /\
        EvmSend.pending a <> None /\ EvmSend.est_ok a = true /\ EvmSend.tip_ok a = true /\
        EvmSend.price_ok a = true /\ EvmSend.sign_ok a = true /\ EvmSend.submit_ok a = true) /\
   ((forall n, snd sr <> EvmSend.Accepted n) ->
-     snd (register kec cfg reg amount (Compose_chain.sendres_of hash_of (snd sr)) w) = Err 1 /\
+     snd (register kec cfg reg amount (Compose_registry.sendres_of hash_of (snd sr)) w) = Err 1 /\
      forall p, EvmSend.pending a = Some p -> fst sr = fst (EvmSend.get_nonce ctr p)).
-Proof. exact Compose_chain.register_through_sender. Qed.
+Proof. exact Compose_registry.register_through_sender. Qed.
 Print Assumptions C11_register_through_sender.
 
 (* C11 o C04 (model/Handshake.v).  The handshake's oracle [registered] instantiated by
    CheckProviderRegistered of the provider registry with the answers the chain node gives to its two reads
-   during that handshake ([Compose_chain.registry_check]).  A peer is registered or announced as a provider
+   during that handshake ([Compose_registry.registry_check]).  A peer is registered or announced as a provider
    only if both reads succeeded and decoded and the stake read for the peer's proven address A -- the
    address of its transport identity -- was at least the minimum; the reads made are minStake() and
    checkStake(A) on the configured contract, asked once. *)
 Theorem C11_provider_enrolled_only_if_staked :
   forall kec reg a_min a_stake c o wfail script has_notifier add A,
-  Handshake.registered o = Compose_chain.registry_check kec reg a_min a_stake ->
+  Handshake.registered o = Compose_registry.registry_check kec reg a_min a_stake ->
   In (Handshake.ERegister A Handshake.type_provider) (Handshake.inbound c o wfail script has_notifier add) \/
   In (Handshake.ENotify A Handshake.type_provider) (Handshake.inbound c o wfail script has_notifier add) ->
   Handshake.addr_of_pid o = Handshake.POk A /\ Handshake.lookups (Handshake.handle c o wfail script) = [A] /\
@@ -264,7 +312,7 @@ Theorem C11_provider_enrolled_only_if_staked :
   fst (check kec provider_registry reg A a_min a_stake) =
     [ECall (read_req kec reg (r_min provider_registry) []);
      ECall (read_req kec reg (r_stake provider_registry) [VAddress A])].
-Proof. exact Compose_chain.provider_enrolled_only_if_staked. Qed.
+Proof. exact Compose_registry.provider_enrolled_only_if_staked. Qed.
 Print Assumptions C11_provider_enrolled_only_if_staked.
 
 (* Fail closed, end to end: with a failed or malformed registry read a provider whose signature and address
@@ -272,12 +320,12 @@ Print Assumptions C11_provider_enrolled_only_if_staked.
    C17_inbound_stake_failure_blocks_full_term), never enrolled. *)
 Theorem C11_unreadable_registry_refuses_provider :
   forall kec reg a_min a_stake c o wfail f1 rest token sig a,
-  Handshake.registered o = Compose_chain.registry_check kec reg a_min a_stake ->
+  Handshake.registered o = Compose_registry.registry_check kec reg a_min a_stake ->
   (a_min = CErr \/ (exists b, a_min = CBytes b /\ decode_uint256 b = None) \/
    a_stake = CErr \/ (exists b, a_stake = CBytes b /\ decode_uint256 b = None)) ->
   Handshake.as_req f1 = Some (Handshake.provider_string, token, sig) ->
   Handshake.verify o sig (Handshake.provider_string ++ token) = Handshake.VOk true a ->
   Handshake.addr_of_pid o = Handshake.POk a ->
   Handshake.res (Handshake.handle c o wfail (f1 :: rest)) = Handshake.Refuse Handshake.RStake.
-Proof. exact Compose_chain.unreadable_registry_refuses_provider. Qed.
+Proof. exact Compose_registry.unreadable_registry_refuses_provider. Qed.
 Print Assumptions C11_unreadable_registry_refuses_provider.
